@@ -25,12 +25,27 @@ def all_points(*objs):
     return pts
 
 
+def integer_pose(rng, pts, s):
+    """catalogue units stay as they are (scale 1) and the box is pushed by an integer translation to negative coordinates (-2, -1, 0, ...): many hashed values then
+    collide (CPython: hash(-1) == hash(-2)), which exercises code that confuses equal hashes with equal objects"""
+    from fractions import Fraction as Fr
+    M = rng.choice(geom.SIGNED_PERMS)
+    p0 = geom.Pose(s=s, k=Fr(1), M=M)
+    lo = [min(p0.pt(P)[i] for P in pts) for i in range(3)] if pts else [0, 0, 0]
+    t = tuple(Fr(rng.choice((-2, -2, -1, 0))) - (lo[i] - (lo[i] % 1)) for i in range(3))
+    return geom.Pose(s=s, k=Fr(1), M=M, t=t)
+
+
 def poses_for(case_objs, rng, n_extra, s=1):
     base = geom.Pose(s=s)
     out = [base]
     pts = all_points(*case_objs)
     for _ in range(n_extra):
-        out.append(random_pose(rng, s=s, pts=pts))
+        if rng.random() < 0.2:
+            p = integer_pose(rng, pts, s)
+            out.append(p if p.maxabs(pts) <= 16 else random_pose(rng, s=s, pts=pts))
+        else:
+            out.append(random_pose(rng, s=s, pts=pts))
     return out
 
 
